@@ -13,7 +13,7 @@ LEVEL = 'exploration'
 RULE = ('table: 8 settings of (want_response_signed, want_assertions_signed, want_assertions_or_response_signed) x {plain, encrypted} x '
         '{nothing signed; response signed: valid / SignatureValue corrupted / content edited after signing; assertion signed: same three; '
         'both signed: valid / each signature corrupted each way} = 192 rows, enumerated in full; generated: a row drawn uniformly + generated '
-        'name id, attribute values, message ids, hash algorithm, number of assertions (1-2). Non-trivial = an option is on or a signature is '
+        'name id, attribute values, message ids, hash algorithm, client loaded from SPConfig / role-neutral Config, encrypted assertions for a configured key pair / a per-request key (outstanding_certs). Non-trivial = an option is on or a signature is '
         'present; distinct = (row, identity).')
 ASSUMPTIONS = ['xmlsec1 stand-in (DESIGN 2.1) verifies/decrypts; documents are built and signed by the harness, not by the IdP code',
                'frozen clock; response otherwise valid (destination, audience, in-response-to, validity windows)']
@@ -44,7 +44,7 @@ def run_row(case):
     wrs, was, wors = row['opts']
     ident = case.get('ident') or {}
     now = spside.NOW
-    sp = spside.sp_for({'want_response_signed': wrs, 'want_assertions_signed': was, 'want_assertions_or_response_signed': wors})
+    sp = spside.sp_for({'want_response_signed': wrs, 'want_assertions_signed': was, 'want_assertions_or_response_signed': wors}, config_class=ident.get('config_class', 'sp'))
     clock.set_now(now)
     rid = ident.get('rid', 'id-resp-1')
     n_ass = ident.get('n', 1)
@@ -74,8 +74,12 @@ def run_row(case):
             return x.replace('IssueInstant="%s"' % build.ts(now), 'IssueInstant="%s"' % build.ts(now - 1), 1)
         return x
     doc = build.render(r, alist, sign_response=sign_r, sign_assertions=sign_a, alg=ident.get('alg', 'sha256'),
-                       encrypt_for=2 if row['enc'] else None, post_assertion=post_assertion, post_response=post_response)
-    verdict = spside.deliver(sp, doc)
+                       encrypt_for=(4 if ident.get('per_request') else 2) if row['enc'] else None, post_assertion=post_assertion, post_response=post_response)
+    kw = {}
+    if ident.get('per_request'):
+        # the assertion is encrypted for a one-time certificate whose private key the application hands over with the outstanding request
+        kw['outstanding_certs'] = {'id-req-1': {'key': open(world.key(4)).read(), 'cert': open(world.crt(4)).read()}}
+    verdict = spside.deliver(sp, doc, **kw)
     want = expected_accept(wrs, was, wors, 'R' in shape, 'A' in shape, corrupt is None)
     got = verdict[0] == 'accept'
     if got and not want:
@@ -97,7 +101,9 @@ def generated_strategy():
     idc = st.text(alphabet='abcdefghijklmnopqrstuvwxyzABCDEFXYZ0123456789-_.', min_size=1, max_size=20).map(lambda s: '_' + s)
     ident = st.fixed_dictionaries({'rid': idc, 'aid': idc.map(lambda s: s + 'a'), 'name': st.text(alphabet=st.characters(codec='utf-8', exclude_categories=('Cs', 'Cc', 'Zs', 'Zl', 'Zp')), min_size=1, max_size=20),
                                    'values': st.lists(st.text(alphabet=st.characters(codec='utf-8', exclude_categories=('Cs', 'Cc')), min_size=1, max_size=12).map(lambda s: s.strip() or 'v'), min_size=1, max_size=3),
-                                   'alg': st.sampled_from(build.HASHES), 'n': st.just(1)})
+                                   'alg': st.sampled_from(build.HASHES), 'n': st.just(1),
+                                   # the client loaded from an SPConfig or from the role-neutral Config; encrypted assertions for a configured key pair or for a per-request key
+                                   'config_class': st.sampled_from(['sp', 'sp', 'generic']), 'per_request': st.booleans()})
     return st.tuples(st.sampled_from(rows()), ident).map(lambda t: dict(t[0], ident=t[1]))
 
 
